@@ -60,7 +60,7 @@ fn process_mesh_assets(
         let id: AssetId<Mesh> = AssetId::Uuid { uuid: id };
         meshes.insert(id, bin_to_mesh(&mesh));
     }
-    // still holding the lock: a download that completes now is counted after this
+    drop(map);
     for id in applied {
         sync.download_applied(SyncAssetType::Mesh, &id);
     }
@@ -84,7 +84,7 @@ fn process_image_assets(
         };
         images.insert(id, img);
     }
-    // still holding the lock: a download that completes now is counted after this
+    drop(map);
     for id in applied {
         sync.download_applied(SyncAssetType::Image, &id);
     }
@@ -110,7 +110,7 @@ fn process_audio_assets(
             },
         );
     }
-    // still holding the lock: a download that completes now is counted after this
+    drop(map);
     for id in applied {
         sync.download_applied(SyncAssetType::Audio, &id);
     }
@@ -210,7 +210,6 @@ impl SyncAssetTransfer {
         }
         let pending = self.pending.clone();
         self.download_pool.execute(move || {
-            let mut delivered = false;
             if let Ok(response) = ureq::get(url.as_str()).call() {
                 let len = response
                     .header("Content-Length")
@@ -231,7 +230,6 @@ impl SyncAssetTransfer {
                                     Ok(mut map) => {
                                         debug!("Received mesh {} with size {}", id, len);
                                         map.insert(id, bytes);
-                                        delivered = true;
                                         break;
                                     }
                                     Err(_) => lock = meshes_to_apply.write(),
@@ -246,7 +244,6 @@ impl SyncAssetTransfer {
                                     Ok(mut map) => {
                                         debug!("Received image {} with size {}", id, len);
                                         map.insert(id, bytes);
-                                        delivered = true;
                                         break;
                                     }
                                     Err(_) => lock = images_to_apply.write(),
@@ -261,7 +258,6 @@ impl SyncAssetTransfer {
                                     Ok(mut map) => {
                                         debug!("Received audio {} with size {}", id, len);
                                         map.insert(id, bytes);
-                                        delivered = true;
                                         break;
                                     }
                                     Err(_) => lock = audios_to_apply.write(),
@@ -272,29 +268,37 @@ impl SyncAssetTransfer {
                     }
                 }
             }
-            // this download is over; a failed one leaves nothing to apply
-            let waiting = match key.0 {
-                0 => meshes_to_apply.read().map(|m| m.contains_key(&id)),
-                1 => images_to_apply.read().map(|m| m.contains_key(&id)),
-                _ => audios_to_apply.read().map(|m| m.contains_key(&id)),
-            }
-            .unwrap_or(false);
+            // this download is over: the request is forgotten once no download of the asset is under
+            // way and nothing of it waits to be applied (lock order: pending, then the to-apply map)
             if let Ok(mut pending) = pending.write() {
                 if let Some(entry) = pending.get_mut(&key) {
                     entry.0 = entry.0.saturating_sub(1);
-                    if entry.0 == 0 && !delivered && !waiting {
-                        pending.remove(&key);
-                    }
+                }
+                let waiting = match key.0 {
+                    0 => meshes_to_apply.read().map(|m| m.contains_key(&id)),
+                    1 => images_to_apply.read().map(|m| m.contains_key(&id)),
+                    _ => audios_to_apply.read().map(|m| m.contains_key(&id)),
+                }
+                .unwrap_or(false);
+                if !waiting && pending.get(&key).is_some_and(|entry| entry.0 == 0) {
+                    pending.remove(&key);
                 }
             }
         });
     }
 
-    /// The downloaded asset has been applied: forget the request unless another download of it is under way.
+    /// The downloaded asset has been applied: forget the request unless another download of it is
+    /// under way or waits to be applied (lock order: pending, then the to-apply map).
     fn download_applied(&self, asset_type: SyncAssetType, id: &Uuid) {
         let key = (class_of(&asset_type), *id);
+        let to_apply = match asset_type {
+            SyncAssetType::Mesh => &self.meshes_to_apply,
+            SyncAssetType::Image => &self.images_to_apply,
+            SyncAssetType::Audio => &self.audios_to_apply,
+        };
         if let Ok(mut pending) = self.pending.write() {
-            if pending.get(&key).is_some_and(|entry| entry.0 == 0) {
+            let waiting = to_apply.read().map(|m| m.contains_key(id)).unwrap_or(false);
+            if !waiting && pending.get(&key).is_some_and(|entry| entry.0 == 0) {
                 pending.remove(&key);
             }
         }
